@@ -76,28 +76,21 @@ CASE_TIMEOUT = 60
 SHORT_AXIS = "axis-of-length<=1-in-several-chunks"
 MAX_BLOCKS = 120
 BLOCKVIEW_0D = "blocks-view:0-d-array:block-is-not-the-value"
+# Labels that still fire on the repaired tree: recorded as known findings in known_findings.d/C25.json
 PENDING = {
-    BLOCKVIEW_0D: "x.blocks[()] of any 0-d dask array computes to the array's key NAME (a str), not to its value "
-                  "(BlockView.__getitem__ builds the graph from a (1,1) key array); findings_proposed/C25.md #1, fix proposed",
-    "aligned-op:axis-of-length<=1-in-several-chunks:blocks-do-not-match-chunks":
-        "unify_chunks rechunks an operand axis of total length <= 1 that is split into several (zero-size) chunks to ONE chunk but "
-        "reports the old chunks: x[mask].compute_chunk_sizes() + 1 declares chunks (0,1,0,0) over a one-block graph -> wrong "
-        "shape/values or IndexError/missing keys when blocks are computed; C25.md #2, fix proposed",
-    "reduce.minmax:empty-blocks:result-shape": "min/max/nanmin/nanmax over a non-empty axis when a block is empty along ANOTHER axis "
-                                               "(zero-length axis or zero-size chunk): lazy shape (0,3), computed (1,0) (chunk_min/chunk_max "
-                                               "return a 1x..x0 placeholder for every empty block); C25.md #3, fix proposed",
-    "searchsorted:empty-blocks:result-shape": "same mechanism as reduce.minmax (searchsorted ends with out.max(axis=0)); C25.md #3",
     "bincount:max>=minlength:lazy-shape": "da.bincount(x, minlength=m) declares shape (m,) although the result is longer whenever "
-                                          "x.max() >= m; C25.md #4, no safe small fix (known finding)",
-    "negative-step-slice:zero-size-chunk:vs-numpy-shape": "x[::-1] / flip / rot90 over an axis with a zero-size chunk next to the chunk "
-                                                          "holding the start returns an EMPTY array (lazy and computed shape agree, NumPy "
-                                                          "differs): _slice_1d bisect_left on duplicate boundaries; C25.md #5, fix proposed (C20 defect)",
+                                          "x.max() >= m; findings_proposed/C25.md #4, no safe small fix",
     "cum.sequential:zero-size-chunk:result-shape": "sequential cumsum/cumprod/nancumsum over an axis with a zero-size chunk: blocks after the empty "
-                                                   "one are empty (lazy 6, computed 3) or _cumsum_merge raises; C25.md #6, no fix proposed",
+                                                   "one are empty (lazy 6, computed 3) or _cumsum_merge raises; C25.md #6",
     "coarsen:zero-size-chunk:result-shape": "coarsen drops chunks that coarsen to 0 from .chunks but keeps their keys: lazy (6,1) computed (0,1); C25.md #7",
     "reduce.var-std:zero-size-chunk:vs-numpy-values": "var/std of an array with a zero-size chunk is NaN (0/0 in the moment combine); metadata is "
                                                       "consistent, C22 value defect; C25.md #8",
 }
+# Mechanisms found by this check and repaired by fixes_ready/C25_01..04 (labels must not fire any more):
+#   blocks-view:0-d-array:block-is-not-the-value                      (BlockView.__getitem__ of a 0-d array)
+#   aligned-op:axis-of-length<=1-in-several-chunks:blocks-do-not-match-chunks   (unify_chunks)
+#   reduce.minmax:empty-blocks:result-shape, searchsorted:empty-blocks:result-shape   (chunk_min/chunk_max placeholder)
+#   negative-step-slice:zero-size-chunk:vs-numpy-shape                (_slice_1d, duplicate chunk boundaries)
 
 CALIBRATION = [
     "dask raising while a step is BUILT, or while a whole stage is computed although all earlier stages are consistent and the "
